@@ -46,7 +46,21 @@ def weights_for(rng, n):
 
 def ys_for(rng, xs):
     n = len(xs)
-    kind = rng.choice(['independent', 'collinear_pos', 'collinear_neg', 'noisy', 'noisy', 'smallint'])
+    kind = rng.choice(['independent', 'collinear_pos', 'collinear_neg', 'noisy', 'noisy', 'smallint', 'tiny_alphabet'])
+    if kind == 'tiny_alphabet':
+        # both coordinates from 2-3 values: repeated pairs, observations sitting exactly on the running means
+        ax = [rng.choice([0.0, 1.0, -2.0, 0.5, 3.0]) for _ in range(rng.randint(2, 3))]
+        ay = [rng.choice([0.0, 1.0, -2.0, 0.5, 3.0]) for _ in range(rng.randint(2, 3))]
+        xs[:] = [rng.choice(ax) for _ in range(n)]
+        if rng.random() < 0.5 and n >= 2:
+            xs[1] = xs[0]
+        ys = [rng.choice(ay) for _ in range(n)]
+        if n >= 2 and xs[1] == xs[0]:
+            ys[1] = ys[0]
+        if n >= 3 and rng.random() < 0.5:
+            xs[0], xs[1], xs[2] = 1.0, 3.0, 2.0
+            ys[0], ys[1], ys[2] = -2.0, 0.0, -1.0
+        return ys, kind
     if kind == 'independent':
         ys, _ = gen.sequence(rng, n=n)
         return ys, kind
